@@ -299,6 +299,18 @@ pub proof fn lemma_validated_each(w: World, seg: Seq<Call>, ctxs: Seq<Context>, 
         assert(seg.take(p).subrange(lo, hi) =~= seg.subrange(lo, hi));
     }
 }
+pub proof fn lemma_validated_choice(w: World, seg: Seq<Call>, ctxs: Seq<Context>, all: Seq<Signer>, vcs: Seq<VC>, i: int)
+    requires validated_log(w, seg, ctxs, all, vcs), 0 <= i < vcs.len(),
+    ensures vcs[i].1 == ctxs[i], candidates_exist(w, ctx_rule_type(ctxs[i])),
+        exists|sub: Seq<Call>, k: int| #[trigger] gvc_choice(w, sub, ctxs[i], all, vcs[i].0, vcs[i].2@, k),
+{
+    lemma_validated_each(w, seg, ctxs, all, vcs, i);
+    let (lo, hi) = choose|lo: int, hi: int| 0 <= lo <= hi <= seg.len() && gvc_seg(w, #[trigger] seg.subrange(lo, hi), ctxs[i], all, vcs[i]);
+    let sub = seg.subrange(lo, hi);
+    assert(gvc_seg(w, sub, ctxs[i], all, vcs[i]));
+    let k = choose|k: int| #[trigger] gvc_choice(w, sub, ctxs[i], all, vcs[i].0, vcs[i].2@, k);
+    assert(gvc_choice(w, sub, ctxs[i], all, vcs[i].0, vcs[i].2@, k));
+}
 /// C03, soundness direction, for the log shape `dca_with` that `do_check_auth` guarantees on `Ok`
 pub proof fn lemma_check_auth_sound(w0: World, w2: World, payload: Seq<u8>, entries: Seq<(Signer, Bytes)>, ctxs: Seq<Context>, vcs: Seq<VC>)
     requires dca_with(w0, w2, payload, entries, ctxs, vcs),
@@ -339,11 +351,7 @@ pub proof fn lemma_check_auth_sound(w0: World, w2: World, payload: Seq<u8>, entr
     let seg = w2.calls.subrange(pa, pe);
     assert forall|i: int| 0 <= i < ctxs.len() implies (#[trigger] vcs[i]).1 == ctxs[i] && candidates_exist(w0, ctx_rule_type(ctxs[i]))
         && exists|sub: Seq<Call>, k: int| #[trigger] gvc_choice(w0, sub, ctxs[i], smap_keys(entries), vcs[i].0, vcs[i].2@, k) by {
-        lemma_validated_each(w0, seg, ctxs, smap_keys(entries), vcs, i);
-        let (lo, hi) = choose|lo: int, hi: int| 0 <= lo <= hi <= seg.len() && gvc_seg(w0, #[trigger] seg.subrange(lo, hi), ctxs[i], smap_keys(entries), vcs[i]);
-        let sub = seg.subrange(lo, hi);
-        let k = choose|k: int| #[trigger] gvc_choice(w0, sub, ctxs[i], smap_keys(entries), vcs[i].0, vcs[i].2@, k);
-        assert(gvc_choice(w0, sub, ctxs[i], smap_keys(entries), vcs[i].0, vcs[i].2@, k));
+        lemma_validated_choice(w0, seg, ctxs, smap_keys(entries), vcs, i);
     }
     assert(w2.calls.skip(pe) =~= w2.calls.subrange(pe, w2.calls.len() as int));
 }
